@@ -98,6 +98,7 @@ package retransmission
 //@     opt noframe 1
 //@     modifies ghost.delivered
 //@     yields ghost.lastMessageID = messageID
+//@     assert call:WithRetransmissionSupport#lit1:delegate : [marked-as-seen-before-it-is-delivered] messageID in cache
 //@     modifies ghost.lastMessageID
 //@     ensures [delivered-only-on-first-sight-and-remembered] (ghost.lastMessageID in cache) && ghost.delivered == old(ghost.delivered) + ite(ghost.lastMessageID in old(cache), 0, 1)
 //@ ghost lastMessageID string
